@@ -106,6 +106,18 @@ def check_match(t, q, names, inst_args, label):
     return None
 
 
+def respell(modes):
+    """another mode list whose numbers, written one after the other, give the same digit string ([1, 12] -> [11, 2])"""
+    if len(modes) != 2:
+        return None
+    d = "".join(str(m) for m in modes)
+    for k in range(1, len(d)):
+        a, b = d[:k], d[k:]
+        if (a == "0" or not a.startswith("0")) and (b == "0" or not b.startswith("0")) and [int(a), int(b)] != list(modes):
+            return [int(a), int(b)]
+    return None
+
+
 def case(c):
     import blackbird
     from blackbird.utils import match_template, TemplateError
@@ -144,6 +156,9 @@ def case(c):
             edits.append(("change-mode", lambda q, i=i: q.operations[i].__setitem__("modes", [(q.operations[i]["modes"][0] + 1) % 3] + q.operations[i]["modes"][1:] if len(q.operations[i]["modes"]) == 1 else [q.operations[i]["modes"][0], 3 - sum(q.operations[i]["modes"])])))
             if len(gs[i][1]) == 2:
                 edits.append(("reverse-modes", lambda q, i=i: q.operations[i].__setitem__("modes", q.operations[i]["modes"][::-1])))
+            alt = respell(gs[i][1])
+            if alt:
+                edits.append(("same-digits-other-modes", lambda q, i=i, alt=alt: q.operations[i].__setitem__("modes", list(alt))))
             edits.append(("drop-operation", lambda q, i=i: q.operations.pop(i)))
             edits.append(("duplicate-operation", lambda q, i=i: q.operations.insert(i, copy.deepcopy(q.operations[i]))))
             if i + 1 < n and wires(gs[i][1]) & wires(gs[i + 1][1]):
@@ -226,6 +241,12 @@ def build(ctx):
                 continue
             fs = ("{P}",) + ("0.75",) * (n - 1)
             cases.append((gs, fs, ("a",) * n, VALUE_CLASSES["dyadic"], False))
+    # mode numbers of several digits (written one after the other, [1, 12] and [11, 2] give the same digits): every edit, and
+    # the edit 'same digits, other modes'
+    wide = [("K", [1, 12]), ("K", [11, 2]), ("G", [1]), ("G", [12]), ("M", [12, 1]), ("K", [2, 11]), ("K", [10, 1])]
+    for n in (1, 2):
+        for gs in itertools.product(wide, repeat=n):
+            cases.append((gs, ("{P}",) + ("0.75",) * (n - 1), ("a",) * n, VALUE_CLASSES["dyadic"], True))
     # every value class on the templates that repeat a parameter (where re-solved values must be consistent)
     for (cname, vals), fs in itertools.product(classes, itertools.product(FORMS[:8], repeat=2)):
         cases.append((((("G", [0]), ("H", [1]))), fs, ("a", "a"), vals, False))
